@@ -5,7 +5,7 @@
     [bits_to_bytes kbits].  [hash_break H] = collision or DefaultLeaf shift pair
     (HashBind.v).  [ap_ok] = every audit node is 32 bytes or DefaultLeaf (checkable). *)
 From Coq Require Import List Bool Arith NArith.
-From Verif Require Import Trie.Model Trie.Basics Trie.HashBind Trie.Proof Trie.ProofBasics
+From Verif Require Import Trie.Model Trie.Basics Trie.HashBind Trie.Proof Trie.ProofLeafTest Trie.ProofBasics
   Trie.ProofSound Trie.ProofTop Trie.ProofComplete Trie.StateDBProof Trie.ChainProof.
 Import ListNotations.
 
@@ -199,3 +199,21 @@ Theorem C11_chain_account_proof_complete :
   end.
 Proof. exact chain_account_proof_complete. Qed.
 Print Assumptions C11_chain_account_proof_complete.
+
+(** proof_leaf_test_full_key: merkleProof's test at a shortcut leaf compares the FULL stored
+    key (its remaining bits) with the query key; a proper prefix or an extension of a stored
+    key is not "included".  (Seeded change C11-r6 replaced the equality by a prefix test.) *)
+Theorem C11_proof_leaf_test_full_key :
+  forall (H : bytes -> bytes) h rp k' v k,
+  inc_of (mproof H h rp (Lf k' v) k) = true <-> k' = k.
+Proof. exact proof_leaf_test_full_key. Qed.
+Print Assumptions C11_proof_leaf_test_full_key.
+
+(** For every tree and every query key of ANY length (no 256-bit hypothesis: GetStateQuery
+    forwards the client's storage keys unchanged), Inclusion = true is answered only together
+    with the value stored under exactly that key. *)
+Theorem C11_proof_inclusion_only_stored :
+  forall (H : bytes -> bytes) t h rp k,
+  inc_of (mproof H h rp t k) = true -> get t k = Some (val_of (mproof H h rp t k)).
+Proof. exact proof_inclusion_only_stored. Qed.
+Print Assumptions C11_proof_inclusion_only_stored.
